@@ -51,7 +51,7 @@ class C12(F.Spec):
                      {"tags": ["kind:server", "board:relay2"], "board": "relay2", "kind": "server"})
         for i in range(n):
             yield self.gen_server(rng, i)
-        for i in range(40 if tier == "quick" else 400):
+        for i in range(120 if tier == "quick" else 1200):
             yield self.gen_buttons(rng, i)
 
     def gen_server(self, rng, i):
@@ -124,6 +124,10 @@ class C12(F.Spec):
                 ops += ["input %d 0" % pin, "adv 150", "input %d 1" % pin, "adv 150"]
             ops.append("adv 2500")
             meta = ("toggles", n)
+        if rng.random() < .5:
+            # the 32-bit microsecond counter wraps inside the gesture
+            total = sum(int(o.split()[1]) for o in ops if o.startswith("adv "))
+            ops = ["boot %d" % (4294967296 - rng.randint(1000, max(total, 1001)) * 1000 - rng.randint(0, 999))] + ops
         return F.Case("btn%d-%s" % (i, board), ops, {"tags": ["kind:buttons", "gesture:" + g], "board": board, "kind": "buttons",
                                                      "pin": pin, "f0": f0, "gesture": meta})
 
